@@ -64,6 +64,12 @@ CHECKS.update({
   note="time.Parse is an uninterpreted function for the returned instant, with exact axioms (validated against the native function, engine/timeparse_test.go) for acceptance, year, nanosecond and is-zero-instant for layouts built from 2006 01 02 _2 15 04 05 Jan; Year/AddDate uninterpreted with native refinement of counterexamples; one listed known finding (a value parsing to the reserved zero instant reads as unset) witnessed by a concrete job"),
 })
 
+CHECKS.update({
+ "C01": dict(level="model_checking", ref="DESIGN.md 4 C01",
+  text="differential bounded model checking of compiled programs against a reference interpreter of the intended tree written from docs/Language.md: program shapes are enumerated from a typed grammar (operator pairs at every level in both association orders, comparisons, && ||, =~, nested conditionals with else/otherwise, assignments and ++ -- +=, dimensioned metrics and label text, builtins and conversions, del / del after, stop, decorators with next); each shape's text is compiled by the working tree's compiler and run on the real VM, the reference runs on a second copy of the metrics; the solver decides equality of label sets, values, expiry marks and runtime-error outcome for every match outcome, capture and metric value; a shape the compiler rejects fails the check",
+  note="quick 58 shapes, thorough ~330; one line per run from arbitrary metric values; captures <= 2 bytes; one listed known finding (otherwise after/inside an else body follows one global matched flag), attributed only on lines where the scope rule and the flag scheme decide an otherwise differently; reference choices where Language.md is silent are listed in harness/vm/c01.go"),
+})
+
 NOT_APPLICABLE = {
  "C03": "whole compiler front end on arbitrary bytes: channel-driven lexer, goyacc tables, HM unification over a pointer graph, regexp/syntax - symbolic bytes fork at every character class and reach stdlib parsers that cannot be encoded (DESIGN.md 4 C03)",
  "C17": "behaviour lives in kernel pipe/socket semantics and real goroutine interleavings; a faithful stub would re-implement net (DESIGN.md 4 C17)",
